@@ -198,7 +198,7 @@ def argv_of(opts, model_path=None):
 # ----------------------------------------------------------------------------------------
 # generation
 
-def gen_stream(rng, model_name):
+def gen_stream(rng, model_name, canonicalize=False):
     """1-4 well-formed graphs with metadata, as text."""
     import penman
     from penman.tree import Tree
@@ -211,6 +211,9 @@ def gen_stream(rng, model_name):
         amr_roles += [':consist-of-of', ':prep-on-behalf-of-of', ':prep-out-of-of', ':prep-on-behalf-of']
     elif model_name == 'mini':
         amr_roles += [':consist-of-of']
+    if canonicalize:
+        # --canonicalize-roles is FOR roles that are not in canonical form: stacked inversions, missing normalisation
+        amr_roles += [':ARG0-of-of', ':mod-of-of', ':domain-of-of-of', ':ARG1-of-of-of', ':mod-of-of-of-of', ':op1-of-of']
     texts = []
     for _ in range(rng.randint(1, 4)):
         node = gen.random_tree_node(rng, gen.fresh_vars(), maxdepth=rng.choice([1, 2, 3]), wf=True,
@@ -310,7 +313,7 @@ def one_case(args):
     model = get_model(opts, model_tbl)
     nstreams = 1 if mode == 'stdin' else rng.randint(1, 3)
     mname = 'amr' if opts.get('amr') else 'mini' if opts.get('model') else 'default'
-    streams = [gen_stream(rng, mname) for _ in range(nstreams)]
+    streams = [gen_stream(rng, mname, canonicalize=bool(opts.get('--canonicalize-roles'))) for _ in range(nstreams)]
     case = {'opts': opts, 'mode': mode, 'streams': streams}
     tmpdir = tempfile.mkdtemp(prefix='c20_')
     try:
